@@ -390,6 +390,8 @@ class SymReal:
         ctx().assume_nonzero(b.t)
         if a.c == 0:
             return SymReal.const(0, dd)
+        if a.c is None and a.t.eq(b.t):
+            return SymReal.const(1, dd)  # x / x with x != 0 (recorded above)
         return SymReal(a.t / b.t, None, dd)
 
     def __rtruediv__(self, o):
